@@ -70,3 +70,18 @@ package config
 //@ ensures forall j in 0..len(result.SOCKS5.Auth.Users): (result.SOCKS5.Auth.Users[j].Password == "" || result.SOCKS5.Auth.Users[j].Password == "[REDACTED]") && (result.SOCKS5.Auth.Users[j].PasswordHash == "" || result.SOCKS5.Auth.Users[j].PasswordHash == "[REDACTED]")
 //@ ensures (result.Agent.PrivateKey == "" || result.Agent.PrivateKey == "[REDACTED]") && (result.FileTransfer.PasswordHash == "" || result.FileTransfer.PasswordHash == "[REDACTED]") && (result.Shell.PasswordHash == "" || result.Shell.PasswordHash == "[REDACTED]")
 //@ ensures (result.Management.PrivateKey == "" || result.Management.PrivateKey == "[REDACTED]") && (result.Management.SigningPrivateKey == "" || result.Management.SigningPrivateKey == "[REDACTED]")
+
+// ---- C24: endpoint-group switches. Minimal mode overrides every group flag; otherwise a group is on unless
+// its flag is set and false. The health server consults exactly these three methods when it builds its routes. ----
+
+//@ func HTTPConfig.PprofEnabled
+//@ prop C24
+//@ ensures result <==> !h.Minimal && (h.Pprof == nil || *h.Pprof)
+
+//@ func HTTPConfig.DashboardEnabled
+//@ prop C24
+//@ ensures result <==> !h.Minimal && (h.Dashboard == nil || *h.Dashboard)
+
+//@ func HTTPConfig.RemoteAPIEnabled
+//@ prop C24
+//@ ensures result <==> !h.Minimal && (h.RemoteAPI == nil || *h.RemoteAPI)
